@@ -26,16 +26,16 @@ RULE = (
     "depends on t and k >= 3; distinct by JSON hash"
 )
 ASSUMPTIONS = ["x64"]
-REQUIRED_LABELS = ["alg:padded_scan", "alg:unroll", "alg:via_jvp", "alg:doubling", "alg:residual", "time_dependent", "order:2", "pytree", "jit"]
+REQUIRED_LABELS = ["alg:padded_scan", "alg:unroll", "alg:via_jvp", "alg:doubling", "alg:residual", "alg:residual_implicit", "default_solver", "time_dependent", "order:2", "pytree", "jit"]
 MAX_INCONCLUSIVE = 0.2
 
 
 @st.composite
 def _case(draw):
-    alg = draw(st.sampled_from(["padded_scan", "unroll", "via_jvp", "doubling", "residual"]))
-    order = 1 if alg == "doubling" else draw(st.sampled_from([1, 1, 2]))
-    d = draw(st.integers(1, 3))
-    degree = draw(st.integers(1, 3))
+    alg = draw(st.sampled_from(["padded_scan", "unroll", "via_jvp", "doubling", "residual", "residual_implicit"]))
+    order = 1 if alg in ("doubling", "residual_implicit") else draw(st.sampled_from([1, 1, 2]))
+    d = draw(st.integers(1, 3 if alg != "residual_implicit" else 2))
+    degree = draw(st.integers(1, 3 if alg != "residual_implicit" else 2))
     field = PolyField(d, order, degree, with_time=True)
     # sparse coefficient matrix: most entries zero keeps exact arithmetic cheap and magnitudes moderate
     C = [[0.0] * field.M for _ in range(d)]
@@ -48,9 +48,11 @@ def _case(draw):
         num = 2 ** (draw(st.integers(1, 3)) + 1) - 2  # m doublings return 2^(m+1) - 1 coefficients in total
     elif alg == "residual":
         num = draw(st.integers(0, 5))
+    elif alg == "residual_implicit":
+        num = draw(st.integers(1, 4))
     else:
         num = draw(st.integers(0, 10))
-    return dict(alg=alg, order=order, d=d, degree=degree, C=C, num=num,
+    return dict(cubic=draw(st.sampled_from([0.25, 0.5, 1.0])), default_solver=draw(st.booleans()), alg=alg, order=order, d=d, degree=degree, C=C, num=num,
                 inits=draw(gen.mat(order, d, gen.quarter(-6, 6))), t0=draw(gen.nonzero_quarter(-8, 8)),
                 pytree=draw(st.booleans()), jit=draw(st.booleans()))
 
@@ -84,6 +86,8 @@ def check_case(case):
     field = PolyField(d, order, case["degree"], with_time=True)
     C = np.asarray(case["C"], float)
     res.label(f"alg:{alg}", f"order:{order}")
+    if alg == "residual_implicit":
+        return _implicit(res, case, field, C)
     tdep = field.depends_on_time(C)
     if tdep:
         res.label("time_dependent")
@@ -173,4 +177,82 @@ def check_case(case):
         j, i = np.unravel_index(int(np.argmax(err / tol)), err.shape)
         res.violate(f"value:{alg}" + (":gross" if ratio > 1e6 else ""),
                     f"{alg}: derivative u^({j})[{i}] = {got[j, i]!r}, exact {exact_f[j, i]!r} ({str(exact[j][i])}); time-dependent={tdep}")
+    return res
+
+
+def _implicit(res, case, field, C):
+    """Implicit problem  r(u, u', t) = u' + c u'^3 - P(u, t) = 0  (nonlinear in the highest derivative, d r / d u' = 1 + 3 c u'^2 > 0, so
+    the constraints determine all coefficients).  Oracle: a validity predicate - the lifted residual (its 0th..(num-1)-th total time
+    derivatives, evaluated exactly along the returned coefficients) must vanish; the routine with its default solver must do as well as with
+    an explicit generous budget whenever the latter needed at most 8 iterations (the documented default budget is 10)."""
+    import jax.numpy as jnp
+
+    from probdiffeq import probdiffeq as pd
+
+    d, num, c3 = case["d"], case["num"], float(case["cubic"])
+    C = np.asarray(C, float) * 0.25  # moderate right-hand sides: Gauss-Newton from the diffuse prior converges in a handful of iterations
+    res.nontrivial = True
+    t0 = float(case["t0"])
+    u0 = np.asarray(case["inits"][0], float)
+    # the residual as a polynomial in (u, u', t): for the exact total derivatives
+    f2 = PolyField(d, 2, 3, with_time=True)
+    C2 = np.zeros((d, f2.M))
+    for m, a in enumerate(field.alpha):  # -P(u, t)
+        a2 = tuple(list(a[:d]) + [0] * d + [a[d]])
+        C2[:, f2.alpha.index(a2)] -= C[:, m]
+    for i in range(d):
+        e1 = [0] * f2.nvars
+        e1[d + i] = 1
+        C2[i, f2.alpha.index(tuple(e1))] += 1.0
+        e3 = [0] * f2.nvars
+        e3[d + i] = 3
+        C2[i, f2.alpha.index(tuple(e3))] += c3
+
+    def rfun(u, du, /, *, t):
+        return du + c3 * du**3 - field.jax_eval_static(C, [u], t)
+
+    def run(nlstsq):
+        residual = pd.residual_velocity(rfun, jacobian=pd.jacobian_materialize())
+        if num >= 2:
+            residual = residual.jet_lift(lift_by=num - 1)
+        expand = pd.jetexpand_residual(num) if nlstsq is None else pd.jetexpand_residual(num, nlstsq=nlstsq)
+        out, info = expand(residual, [jnp.asarray(u0)], t=t0)
+        return np.asarray([np.asarray(x, float).reshape(-1) for x in out]), info
+
+    def lifted_residual(jet):
+        """rms of the exact 0th..(num-1)-th total derivatives of r along the jet, relative to the sum of the absolute terms."""
+        ex = series.total_derivatives_along_jet(f2, C2.tolist(), [list(map(float, row)) for row in jet[: num + 1]], t0, num - 1, one=1.0)
+        Cabs = np.abs(C2).tolist()
+        bd = series.total_derivatives_along_jet(f2, Cabs, [list(map(lambda v: abs(float(v)), row)) for row in jet[: num + 1]], abs(t0), num - 1, one=1.0)
+        ex, bd = np.asarray(ex, float), np.asarray(bd, float)
+        # relative to the sum of the absolute terms, with an absolute floor (a component whose terms all vanish has nothing to be relative to)
+        return float(np.max(np.abs(ex) / (bd + 1e-3 * (1.0 + float(np.max(np.abs(jet)))))))
+
+    with common.lib_call("jetexpand_residual(implicit, explicit budget)"):
+        jet_ref, info_ref = run(pd.lstsq_constrained_gauss_newton(maxiter=60, tol=1e-13))
+    iters_ref = int(info_ref.get("iters", 60)) if isinstance(info_ref, dict) else 60
+    if jet_ref.shape[0] != num + 1:
+        res.violate("count", f"residual_implicit: returned {jet_ref.shape[0]} coefficients, expected {num + 1}")
+        return res
+    if not np.all(np.isfinite(jet_ref)) or np.max(np.abs(jet_ref)) > 1e6:
+        raise common.Inconclusive("implicit problem: Gauss-Newton from the diffuse prior does not converge (not what C10 is about)")
+    r_ref = lifted_residual(jet_ref)
+    res.metric("implicit:residual(explicit budget)/tol", r_ref / 1e-9)
+    if iters_ref >= 60:
+        raise common.Inconclusive("implicit problem: 60 Gauss-Newton iterations were not enough")
+    if not r_ref <= 1e-9:
+        res.violate("implicit:residual", f"residual_implicit: the returned coefficients do not satisfy the lifted residual (relative size {r_ref:.2e} after {iters_ref} iterations, tol 1e-13)")
+        return res
+    if np.any(jet_ref[0] != u0):
+        res.violate("implicit:initial_value", "the given initial value was changed")
+    if case["default_solver"]:
+        res.label("default_solver")
+        with common.lib_call("jetexpand_residual(implicit, default solver)"):
+            jet_def, info_def = run(None)
+        r_def = lifted_residual(jet_def) if np.all(np.isfinite(jet_def)) else np.inf
+        res.metric("implicit:residual(default)/tol", r_def / 1e-5)
+        if iters_ref <= 8 and not r_def <= 1e-5:
+            it = info_def.get("iters") if isinstance(info_def, dict) else None
+            res.violate("implicit:default_solver", f"jetexpand_residual({num}) with its default solver leaves a lifted residual of relative size {r_def:.2e} "
+                        f"(reported iterations: {it}); an explicit budget converges in {iters_ref} iterations to {r_ref:.1e}")
     return res
